@@ -107,6 +107,8 @@ def depth_budget(rep, rule, prog, include_unsafe=True):
 
 
 CONSUMING = re.compile(r'::(advance|read_[a-z0-9_]+|skip_till_depth|skip|split_to|copy_to_slice|read_exact|get_[ui](8|16|32|64))$')
+# framing calls that read no byte in the fixed-width protocols (a `void`-like arm made only of these makes no progress)
+ZERO_WIDTH = re.compile(r'::read_(struct_begin|struct_end|field_end|list_end|set_end|map_end|message_end)$')
 
 
 def progress(rep, rule, prog):
@@ -121,7 +123,7 @@ def progress(rep, rule, prog):
         succ, pred, reach = b.cfg
         consuming = set()
         for cs in b.calls():
-            if CONSUMING.search(cs.callee) or CONSUMING.search(cs.decl or ''):
+            if (CONSUMING.search(cs.callee) or CONSUMING.search(cs.decl or '')) and not (ZERO_WIDTH.search(cs.callee) or ZERO_WIDTH.search(cs.decl or '')):
                 consuming.add(cs.bb)
         oks = []
         for bi, bb in enumerate(b.bbs):
